@@ -25,6 +25,42 @@ def keymap(rng, n):
     return [str(k) for k in ks]
 
 
+def apalache_inductive(wd):
+    """HashTableInd.tla with Apalache (symbolic): the invariant is inductive and the step property holds for arbitrary integer keys /
+    values and any table of at most 6 entries; the vacuity guard and the deviation must be refuted.  Returns a summary for the evidence."""
+    import shutil
+    import subprocess
+    exe = shutil.which("apalache-mc")
+    if not exe:
+        raise ToolError("apalache-mc not found")
+    swd = os.path.join(wd, "apalache")
+    os.makedirs(swd, exist_ok=True)
+    for f in ("HashTable.tla", "HashTableInd.tla"):
+        shutil.copy(os.path.join(SPEC, f), swd)
+    runs = [("base", "Init0", "IndNext", "IndInv", 0, False), ("inductive step", "IndInit", "IndNext", "IndInv", 1, False),
+            ("step property", "IndInit", "IndNext", "StepInv", 1, False), ("vacuity guard", "IndInit", "IndNext", "Small", 0, True),
+            ("deviation evict-before-insert", "IndInit", "BadNext", "StepInv", 1, True)]
+
+    def one(r):
+        name, init, nxt, inv, length, expect_error = r
+        od = os.path.join(swd, "out_" + inv + "_" + nxt + str(length))
+        try:
+            p = subprocess.run([exe, "check", "--init=" + init, "--next=" + nxt, "--inv=" + inv, "--length=%d" % length, "--out-dir=" + od,
+                                "HashTableInd.tla"], cwd=swd, stdout=subprocess.PIPE, stderr=subprocess.STDOUT, text=True, timeout=1500)
+        except subprocess.TimeoutExpired:
+            raise ToolError("apalache timed out on " + name)
+        ok = "EXITCODE: OK" in p.stdout
+        err = "violated" in p.stdout and "The outcome is: Error" in p.stdout
+        shutil.rmtree(od, ignore_errors=True)
+        if not ok and not err:
+            raise ToolError("apalache failed on %s:\n%s" % (name, p.stdout[-1500:]))
+        if expect_error != err:
+            raise ToolError("apalache: %s: expected %s, got %s\n%s" % (name, "a counterexample" if expect_error else "no error", "a counterexample" if err else "no error", p.stdout[-1500:]))
+        return {"check": name, "init": init, "next": nxt, "inv": inv, "length": length, "counterexample": err}
+
+    return pmap(one, runs, 5)
+
+
 def check(tier, replay=None):
     t0 = time.time()
     T = tier == "thorough"
@@ -48,6 +84,7 @@ def check(tier, replay=None):
         if "Error:" in info["out"] or info["rc"] != 0:
             raise ToolError("HashTableMC does not hold on the design:\n" + info["out"][-3000:])
         mc_states, mc_trans = info["distinct"], info["generated"]
+        ind = apalache_inductive(wd)
         # vacuity: every action of Next must have been taken
         zero = re.findall(r"<Action line (\d+).*?>\n\s+line \d+.*?: 0\n", info["out"])
         if zero:
@@ -119,6 +156,8 @@ def check(tier, replay=None):
                    "fill level, internal queue/map lengths compared). evaluations = operations validated; distinct_nontrivial = distinct (history, position) "
                    "operations that evict, overwrite/re-insert a key stored or evicted/cleared before, or look such a key up",
            "samples": samples, "exhaustive": not replay,
+           "inductive_invariant": None if replay else {"module": "HashTableInd.tla", "tool": "apalache-mc 0.58 (symbolic)", "runs": ind,
+                                   "meaning": "Inv is inductive and StepInv holds for one step from ANY state satisfying Inv with at most 6 stored entries, arbitrary integer keys/values"},
            "checker_cmd": "tlc -workers 8 -coverage 1 -config spec/HashTableMC.cfg spec/HashTableMC.tla; java ... tlc2.TLC -workers 1 -config spec/HashTableTrace.cfg spec/HashTableTrace.tla"}
     rc = outcome.finish()
     write_evidence("C18", tier, "model_checking", cov, time.time() - t0, len(outcome.violations),
